@@ -107,6 +107,9 @@ func (w *World) postValidate(n *Node, snap *validateSnap, s consensus.State, b t
 		return
 	}
 	w.stats.Inc("probe.c09.validate")
+	if w.cfg.Profile == "C09" && w.tape.Choose(3) == 0 {
+		w.multiproofEncodePure()
+	}
 	ctx := fmt.Sprintf("block %s (child of height %d)", short(b.ID()), int64(s.Index.Height))
 	// (called directly, without validation's range checks in front: a panic here says nothing)
 	_ = guard(func() { w.checkPure(s, b.Transactions, b.V2Transactions(), ctx) })
